@@ -16,6 +16,7 @@ RULE = ("circuits: every sequence of <=L operations over an alphabet of self-adj
         "0..3 parameters; apply_gate_to_qubits for EVERY list of <=3 qubits over {0,1,2,5,8} (unordered, duplicates) x base circuits; add_ancilla_register "
         "for k in 0..3. non-trivial = circuit with >= 1 operation whose unitary is not the identity")
 RULE += ' Also: wrappers on top of controlled gates in controlled circuits; parameter rows of zeros; layer width.'
+RULE += ' Round 5: every length-3 run of same-named gates (U3, GPi2/custom, CNOT, controlled-*) for inverse(); 4-5 qubit controlled gates with complex entries for inverse() and controlled().'
 ASSUMPTIONS = ["to_unitary is the ordered product (C01)", "symbolic circuits are bound before evaluation (numpy x sympy products are impossible with sympy 1.9 / numpy 2 in this image)",
                "exp gates are not unitary: for them only (c.inverse()).inverse() and widths are judged, as the statement's adjoint/identity claims presuppose unitary gates... see DESIGN 4/C08"]
 BOUNDS = {"quick": {"n": 3, "L": 2}, "thorough": {"n": 3, "L": 3}}
